@@ -129,7 +129,7 @@ theorem dateOnYear_eq_instance (ds : DateSpec) (y : Int) (after : Bool) (hwf : d
 
 /-- a date with a year has no instance on another year (specification side) -/
 theorem dateInstance_other_year (ds : DateSpec) (y y' : Int) (after : Bool)
-    (h : specYear ds = some y') (hne : y ≠ y') (hy : 0 ≤ y) : dateInstance ds y after = none := by
+    (h : specYear ds = some y') (hne : y ≠ y') (hy : 0 < y') : dateInstance ds y after = none := by
   cases ds with
   | easter yr =>
     cases yr with
@@ -168,13 +168,15 @@ theorem fixedInstance_year (y : Int) (m dd : Nat) (after : Bool)
     have hb' := daysInMonth_bounds y (m + 1)
     cases after <;> simp only [if_true, Bool.false_eq_true, if_false] <;> unfold ymdRaw at * <;> omega
 
-/-- every instance of a well-formed date lies inside the year it is taken on -/
+/-- every instance of a well-formed date lies inside the year it is taken on (Easter: on the years from 0 on,
+where the computus is the one of the Gregorian calendar) -/
 theorem dateInstance_year (ds : DateSpec) (y : Int) (after : Bool) (hwf : ds.wf = true)
-    (hy1 : 0 ≤ y) (hy2 : y ≤ maxYear) (p : Int) (h : dateInstance ds y after = some p) :
+    (hy1 : minYear ≤ y) (hyE : isFixedDate ds = false → 0 ≤ y) (hy2 : y ≤ maxYear) (p : Int)
+    (h : dateInstance ds y after = some p) :
     yearStart y < p ∧ p ≤ yearStart (y + 1) := by
   cases ds with
   | easter yr =>
-    obtain ⟨d, he, hyd, _⟩ := easter_spec y hy1 hy2
+    obtain ⟨d, he, hyd, _⟩ := easter_spec y (hyE rfl) hy2
     simp only [dateInstance, he] at h
     split at h
     · simp only [Option.some.injEq] at h; subst h
@@ -184,7 +186,7 @@ theorem dateInstance_year (ds : DateSpec) (y : Int) (after : Bool) (hwf : ds.wf 
     simp only [DateSpec.wf, Bool.and_eq_true, decide_eq_true_eq] at hwf
     obtain ⟨⟨⟨⟨_, hm1⟩, hm2⟩, hd1⟩, hd2⟩ := hwf
     by_cases hc : yr = none ∨ yr.map (fun (n : Nat) => (n : Int)) = some y
-    · rw [dateInstance_fixed yr y m dd after hc (by unfold minYear; omega) hy2 hm1 hm2 hd1 hd2] at h
+    · rw [dateInstance_fixed yr y m dd after hc hy1 hy2 hm1 hm2 hd1 hd2] at h
       simp only [Option.some.injEq] at h; subst h
       exact fixedInstance_year y m dd after hm1 hm2 hd1 hd2
     · simp only [dateInstance] at h
